@@ -8,16 +8,17 @@ rbcoords is *run* (verifier/c14_np.py) on such blocks:
     general frame, each at its own symbolic position.  Row j of the returned coordinates must be p_j - so each grid is solved with its own
     block, in its own frame - and the two reported deviations must vanish for exactly rigid modes.  Tests the function makes on the data are
     answered at a generic point (frames far from every special orientation), so this part speaks about the generic route only.
-  * at exact witness frames (rational rotations by tan(angle/2) = 10^-2 ... 10^-8 about an axis, about two axes, about a general axis; half and
+  * at exact witness frames (rational rotations by tan(angle/2) = 10^-2 ... 10^-6 about an axis, about two axes, about a general axis; half and
     quarter turns; a cyclic permutation): every test has a truth value there (closeness tests are the comparisons numpy makes, tolerances
     included), the solve is exact, so the recovered position of a correct implementation is exact.  A route that bypasses the fit for such a
     frame returns M S(p) read as S(p): the location is off by (off-diagonal terms) x distance.  This is the typestate part: a node may bypass the
     fit only under a test that establishes M == identity or bounds the off-diagonal terms; a tolerance on the diagonal (or the trace) does not,
     because diag(R) = 1 - O(angle^2) while the error is O(angle).  Used only to refute: a frame at which a test cannot be decided is exit 2.
 
-Tolerance of the witness comparison: 1e-9 x max(1, |p|) - the exact evaluation of a correct implementation has error 0; a bypass guarded by a
-bound b on every off-diagonal term is off by at most ~2 b |p|, so guards with b <= 5e-9 (e.g. numpy's default atol = 1e-8 on the whole matrix,
-false for every witness frame) stay silent."""
+What counts as "recovered": the witness comparison allows 1e-7 x max(1, |p|) - two orders tighter than numpy's default notion of closeness
+(rtol 1e-5), the one this code base tests with.  The smallest witness tilt has off-diagonal terms 2e-6 (location error 2e-6 x distance), so a
+bypass is reported exactly when it is taken for a frame that is at least that far from the reference frame: guards that bound every
+off-diagonal term by 1e-6 or less are silent whatever they look like, a tolerance d on the diagonal alone is reported from d = 2e-12 on."""
 from __future__ import annotations
 
 import ast
@@ -31,7 +32,7 @@ from .core import Unsupported
 
 _ID3 = ((I_, O_, O_), (O_, I_, O_), (O_, O_, I_))
 _Z3 = ((O_, O_, O_),) * 3
-_TOL = Fraction(1, 10 ** 9)
+_TOL = Fraction(1, 10 ** 7)
 
 
 def node_block(M, p):
@@ -60,7 +61,7 @@ def _mm(A, B):
 
 def _witness_frames():
     out = []
-    for k in range(2, 9):
+    for k in range(2, 7):
         t = Fraction(1, 10 ** k)
         out.append((f"rotation about z, tan(angle/2) = 1e-{k}", _rot("z", t)))
         out.append((f"rotation about x, tan(angle/2) = 1e-{k}", _rot("x", t)))
@@ -204,7 +205,7 @@ def r5_rbcoords(ctx):
         ctx.error("rbcoords: evaluation at the witness frames", fn, und[:6])
     if n_ok or bad:
         ctx.check(not bad, "rbcoords: a grid bypasses the least-squares fit only under a test that establishes that its 3x3 block is the identity or "
-                  "bounds the off-diagonal terms (witness frames: exact rotations by 1e-2 ... 1e-8, half / quarter turns, a permutation; a "
-                  "tolerance on the diagonal or the trace does not bound them: diag = 1 - O(angle^2), the location error is O(angle) x distance)", fn,
+                  "bounds the off-diagonal terms (witness frames: exact rotations by 1e-2 ... 1e-6, half / quarter turns, a permutation; location "
+                  "to 1e-7 x distance; a tolerance on the diagonal or the trace does not bound them: diag = 1 - O(angle^2), the error is O(angle) x distance)", fn,
                   None if not bad else {"counterexamples": bad[:3], "frames that fail": len(bad),
                                         "consequence": "the recovered location is off by (off-diagonal terms) x (distance from the reference point)"})
